@@ -8,9 +8,6 @@ import (
 // vecSource feeds the replay vector's draws to the real generator when a counterexample is replayed natively.
 type vecSource struct{ n, base int }
 
-// drawn counts the draws made so far in this run: the executor names them rand1, rand2, ... in call order.
-var drawn int
-
 func (s *vecSource) Int63() int64 {
 	s.n++
 	return int64(vU64("rand"+strconv.Itoa(s.n+s.base)) &^ (1 << 63))
@@ -18,13 +15,17 @@ func (s *vecSource) Int63() int64 {
 func (s *vecSource) Seed(int64) {}
 
 // draw calls RandomID; natively the generator is first replaced by one that returns the recorded draws.
-func draw() ID {
+func draw() ID { return drawK(0) }
+
+// drawK is the k-th call of RandomID in a run (k = 0, 1, ...): the executor names the draws rand1, rand2, ... in call
+// order, so the k-th call uses rand(2k+1) and rand(2k+2). (No package-level counter: package variables written by
+// the harness would become events of the lock-discipline query.)
+func drawK(k int) ID {
 	if vNative() {
 		randomMutex.Lock()
-		random = rand.New(&vecSource{base: drawn})
+		random = rand.New(&vecSource{base: 2 * k})
 		randomMutex.Unlock()
 	}
-	drawn += 2
 	return RandomID()
 }
 
@@ -101,11 +102,10 @@ func parity64(x uint64) uint64 {
 //
 //verif:harness C19 quick
 func H_C19_jointFreedom() {
-	drawn = 0
-	x := draw() // rand1, rand2: arbitrary
-	y := draw() // rand3, rand4: arbitrary
-	s := draw() // rand5, rand6 := the sum of the two
-	z := draw() // rand7, rand8 := 0
+	x := drawK(0) // rand1, rand2: arbitrary
+	y := drawK(1) // rand3, rand4: arbitrary
+	s := drawK(2) // rand5, rand6 := the sum of the two
+	z := drawK(3) // rand7, rand8 := 0
 	vAssume(vU64("rand5") == vU64("rand1")^vU64("rand3") && vU64("rand6") == vU64("rand2")^vU64("rand4"))
 	vAssume(vU64("rand7") == 0 && vU64("rand8") == 0)
 	vAssert("id-is-affine-in-the-draws", s.Higher == x.Higher^y.Higher^z.Higher && s.Lower == x.Lower^y.Lower^z.Lower)
@@ -115,7 +115,7 @@ func H_C19_jointFreedom() {
 	vAssume(mH&0xf000 == 0 && mL>>62 == 0 && (mH != 0 || mL != 0))
 	odd := uint64(0)
 	for i := 0; i < 126; i++ {
-		e := draw() // rand(9+2i), rand(10+2i) := i-th unit vector of the 126 draw bits
+		e := drawK(4 + i) // rand(9+2i), rand(10+2i) := i-th unit vector of the 126 draw bits
 		a, b := uint64(0), uint64(0)
 		if i < 63 {
 			a = 1 << uint(i)
